@@ -45,6 +45,10 @@ for kind, pre in (("sync", "s"), ("thread", "t"), ("async", "a")):
     # invalidate_on
     row(pre + "_inv", kind, inv=True)
     row(pre + "_inv_lru2", kind, inv=True, limit=2, policy="lru")
+    row(pre + "_inv_lfu2", kind, inv=True, limit=2, policy="lfu")
+    row(pre + "_inv_arc2", kind, inv=True, limit=2, policy="arc")
+    row(pre + "_inv_tlru3_ttl3", kind, inv=True, limit=3, policy="tlru", ttl=3, w="1.5")
+    row(pre + "_inv_random2", kind, inv=True, limit=2, policy="random")
     row(pre + "_inv_ttl2", kind, inv=True, ttl=2)
     row(pre + "_inv_cif", kind, inv=True, cif=True)
     row(pre + "_inv_mem", kind, ret="str", inv=True, maxmem=100, policy="lru")
